@@ -201,7 +201,8 @@ def snapshot(w, relax_links=False):
         for gi, g in enumerate(groups):
             st, m = W.mask_of(d, g.subset_state)
             if any(getattr(a, 'parent', None) is not None and not any(a.parent is x for x in dc) for a in attrs_of(g.subset_state, [])) or \
-                    bound_outside(g.subset_state, dc):
+                    bound_outside(g.subset_state, dc) or \
+                    (joined_outside(d, dc) and not all(any(a is c for c in d.components) for a in attrs_of(g.subset_state, []))):
                 # the selection is defined on attributes of a dataset that has left the collection: whether a dataset still in
                 # it can evaluate it depends on what the departed dataset (not part of the session) still carries - links that
                 # were dropped when it left survive on it as stale derived components until it is re-appended
@@ -242,6 +243,21 @@ def json_able(v):
         return all(json_able(x) for x in v)
     if isinstance(v, dict):
         return all(isinstance(k, str) and json_able(x) for k, x in v.items())
+    return False
+
+
+def joined_outside(d, dc):
+    """Is d key-joined, directly or through a chain, to a dataset that is not in the collection?  (What such a dataset can
+    evaluate for d depends on what it still carries from before it left; it is not part of the saved session.)"""
+    seen, todo = [d], [d]
+    while todo:
+        x = todo.pop()
+        for other in getattr(x, '_key_joins', {}):
+            if not any(other is s_ for s_ in seen):
+                if not any(other is y for y in dc):
+                    return True
+                seen.append(other)
+                todo.append(other)
     return False
 
 
